@@ -34,7 +34,14 @@ def _work(task):
 
 class Pool(object):
     def __init__(self, n, modname, factory, args=()):
+        import atexit
+        import shutil
+        import tempfile
         self.n = n
+        # scratch databases of all workers live under one directory the master removes
+        self.shm = tempfile.mkdtemp(prefix='vp-pool-', dir='/dev/shm')
+        os.environ['VP_SHM_PARENT'] = self.shm
+        atexit.register(shutil.rmtree, self.shm, True)
         if n <= 1:
             _init(modname, factory, args)
             self.pool = None
@@ -54,9 +61,12 @@ class Pool(object):
             yield res
 
     def close(self):
+        import shutil
         if self.pool is not None:
             self.pool.terminate()
             self.pool.join()
+        shutil.rmtree(self.shm, True)
+        os.environ.pop('VP_SHM_PARENT', None)
 
 
 PAGE = 4096
